@@ -144,6 +144,8 @@ SCHEMA = {
             "subs": P(lst(cfg("Gen")), default=[]),
             "named": P(dct(cfg("Gen")), default={"$d": {}}),
             "lds": P(lst(dct(cfg("Gen"))), default=[]),
+            "dls": P(dct(lst(cfg("Gen"))), default={"$d": {}}),
+            "dds": P(dct(dct(cfg("Gen"))), default={"$d": {}}),
         },
     },
     "Artifact": {"bases": [], "task": False, "lw": False, "params": {"v": P("int"), "note": P("str", default="n")}},
